@@ -13,7 +13,8 @@ namespace TcVerif
 open Wire
 open Resp (Value)
 
-/-! ### what the code's mapping tables say (regenerated from source) -/
+/-! ### what the code's mapping tables say (regenerated from source; struct-literal fields sorted by name,
+    because their order is irrelevant in Rust - which source expression feeds which field is what matters) -/
 
 theorem C12_tie_types_response : Gen.TYPES_RESPONSE_MAP =
     [("allowed", "allowed"), ("limit", "result.limit"), ("remaining", "result.remaining"),
@@ -21,14 +22,14 @@ theorem C12_tie_types_response : Gen.TYPES_RESPONSE_MAP =
 
 theorem C12_tie_grpc_response : Gen.GRPC_RESPONSE_MAP =
     [("allowed", "result.allowed"), ("limit", "result.limit as i32"), ("remaining", "result.remaining as i32"),
-     ("retry_after", "result.retry_after as i32"), ("reset_after", "result.reset_after as i32")] := by decide
+     ("reset_after", "result.reset_after as i32"), ("retry_after", "result.retry_after as i32")] := by decide
 
 theorem C12_tie_grpc_request : Gen.GRPC_REQUEST_MAP =
-    [("key", "req.key.clone()"), ("max_burst", "req.max_burst as i64"), ("count_per_period", "req.count_per_period as i64"),
+    [("count_per_period", "req.count_per_period as i64"), ("key", "req.key.clone()"), ("max_burst", "req.max_burst as i64"),
      ("period", "req.period as i64"), ("quantity", "req.quantity as i64"), ("timestamp", "timestamp")] := by decide
 
 theorem C12_tie_http_request : Gen.HTTP_REQUEST_MAP =
-    [("key", "req.key.clone()"), ("max_burst", "req.max_burst"), ("count_per_period", "req.count_per_period"),
+    [("count_per_period", "req.count_per_period"), ("key", "req.key.clone()"), ("max_burst", "req.max_burst"),
      ("period", "req.period"), ("quantity", "req.quantity.unwrap_or(1)"), ("timestamp", "timestamp")] := by decide
 
 /-- documented gRPC field numbers: allowed=1, limit=2, remaining=3, retry_after=4, reset_after=5 -/
